@@ -1128,10 +1128,13 @@ class MatchFile(object):
         n over v, starting at t in bar b
 
         """
+        # a line without a position (the global info line of the older
+        # formats) is in force from the start: from the first note, or
+        # from beat 0 if the first note comes later; it lies in no bar
         _tsigs = [
             (
-                getattr(tsl, "TimeInBeats", self.first_onset),
-                getattr(tsl, "Measure", self.first_measure),
+                getattr(tsl, "TimeInBeats", min(self.first_onset, 0)),
+                getattr(tsl, "Measure", None),
                 tsl.Value,
             )
             for tsl in self.time_sig_lines
@@ -1163,10 +1166,11 @@ class MatchFile(object):
         """
         A list of tuples (t, b, (ks,)) or (t, b, (ks1, ks2))
         """
+        # (lines without a position: see time_signatures)
         _keysigs = [
             (
-                getattr(ksl, "TimeInBeats", self.first_onset),
-                getattr(ksl, "Measure", self.first_measure),
+                getattr(ksl, "TimeInBeats", min(self.first_onset, 0)),
+                getattr(ksl, "Measure", None),
                 ksl.Value,
             )
             for ksl in self.key_sig_lines
